@@ -404,6 +404,16 @@ func Operands(ins ssa.Instruction) []ssa.Value {
 // DependsOn reports whether v data-depends (transitively through operands, loads of cells that have
 // stores, and closure bindings) on a value satisfying pred. Bounded breadth-first search.
 func (p *Prog) DependsOn(v ssa.Value, pred func(ssa.Value) bool) bool {
+	return p.dependsOn(v, pred, false)
+}
+
+// DependsOnDeep is DependsOn that also looks at what statically called repository functions return. Only for
+// predicates that are not relative to a function (constants, calls), never for parameter predicates.
+func (p *Prog) DependsOnDeep(v ssa.Value, pred func(ssa.Value) bool) bool {
+	return p.dependsOn(v, pred, true)
+}
+
+func (p *Prog) dependsOn(v ssa.Value, pred func(ssa.Value) bool, deep bool) bool {
 	seen := map[ssa.Value]bool{}
 	work := []ssa.Value{v}
 	for len(work) > 0 && len(seen) < 5000 {
@@ -415,6 +425,17 @@ func (p *Prog) DependsOn(v ssa.Value, pred func(ssa.Value) bool) bool {
 		seen[x] = true
 		if pred(x) {
 			return true
+		}
+		if call, ok := x.(*ssa.Call); ok && deep {
+			if f := call.Call.StaticCallee(); f != nil && f.Pkg != nil && strings.HasPrefix(f.Pkg.Pkg.Path(), Mod) {
+				for _, b := range f.Blocks {
+					for _, ins := range b.Instrs {
+						if r, ok := ins.(*ssa.Return); ok {
+							work = append(work, r.Results...)
+						}
+					}
+				}
+			}
 		}
 		switch x := x.(type) {
 		case *ssa.FreeVar:
